@@ -64,7 +64,14 @@ type wSib struct {
 	Hist []string `json:"hist"`
 }
 
+type wReg struct {
+	M   string `json:"m"`
+	Out string `json:"out"`
+}
+
 type wOp struct {
+	Outs    []string `json:"outs,omitempty"` // op chain: what each member resolver of a ChainedDIDResolver answers
+	Regs    []wReg   `json:"regs,omitempty"` // op router: Register calls in order
 	Op      string   `json:"op"`
 	Methods []string `json:"methods,omitempty"` // node: config didmethods
 	Strict  bool     `json:"strict,omitempty"`
@@ -296,6 +303,10 @@ func wExec(t *testing.T, node **wNode, op *wOp) (line string) {
 		return "node ok"
 	case "jwk":
 		return wExecJwk(op)
+	case "chain":
+		return wExecChain(op)
+	case "router":
+		return wExecRouter(op)
 	case "resolve":
 		id := did.DID{Method: wunhx(op.M), ID: wunhx(op.ID)}
 		n := *node
@@ -630,6 +641,7 @@ func wGenerate(seed int64, thorough bool) []wOp {
 		for k := 0; k < nj; k++ {
 			ops = append(ops, wJwkSystematic(r))
 		}
+		ops = append(ops, wChainOps(r, nj)...)
 		for k := 0; k < per; k++ {
 			op := wOp{Op: "resolve", Allow: r.Intn(3) == 0}
 			op.NonNil = !op.Allow && r.Intn(2) == 0
